@@ -38,11 +38,12 @@ def meta(tier, seed):
                   "linear policies); byte-level snapshot (buffer, dtype, shape, strides, index, columns; lists and dicts "
                   "deeply) of every caller object - data containers, arms list, policy parameter objects, feature dict - "
                   "identical before and after every call; the bandit's arm list is independent of the constructor's list",
-        "bounds": {"axes": [a for a, _ in AXES], "encodings": {"decisions": DEC_ENC, "rewards": REW_ENC, "contexts": CTX_ENC},
+        "bounds": {"axes": [a for a, _ in AXES], "encodings": {"decisions": DEC_ENC, "rewards": REW_ENC, "contexts": CTX_ENC, "float_contexts": FLOAT_CTX_ENC},
                    "max_deviating_axes": 2 if tier == "quick" else 3,
                    "series_scenarios": ["single feature column as Series (fit, partial_fit, predict)",
                                         "single row as Series (fit with one decision, predict)"]},
-        "assumptions": ["arm labels are ints (float-typed decision arrays must select the same arms)"],
+        "assumptions": ["int arm labels for the full deviation bound (float-typed decision arrays must select the same arms); "
+                        "str labels with one deviating axis"],
     }
 
 
@@ -78,7 +79,33 @@ def enc_rew(kind, v):
     return pd.Series([float(x) for x in v], index=[(5 * i + 2) % 13 for i in range(len(v))])
 
 
-def enc_ctx(kind, v):
+FLOAT_CTX_ENC = ["list", "nd_c", "nd_f", "strided", "transposed", "df", "df_labels", "nd_ro"]
+
+
+def enc_ctx(kind, v, as_float=False):
+    if as_float:
+        # non-dyadic values: an in-place transformation of the caller's buffer that is 'undone' afterwards
+        # (centering, scaling) does not round-trip exactly and shows in the byte-level snapshot
+        a = np.asarray(v, dtype=np.float64) * 0.3 + 0.1
+        if kind == "list":
+            return [[float(x) for x in r] for r in a]
+        if kind == "nd_ro":
+            a = np.ascontiguousarray(a)
+            a.setflags(write=False)
+            return a
+        if kind == "nd_c":
+            return np.ascontiguousarray(a)
+        if kind == "nd_f":
+            return np.asfortranarray(a)
+        if kind == "strided":
+            big = np.zeros((a.shape[0] * 2, a.shape[1] * 2), dtype=np.float64)
+            big[::2, ::2] = a
+            return big[::2, ::2]
+        if kind == "transposed":
+            return np.ascontiguousarray(a.T).T
+        if kind == "df":
+            return pd.DataFrame(a)
+        return pd.DataFrame(a, columns=["f%d" % i for i in range(a.shape[1])], index=[(3 * i + 1) % 17 for i in range(a.shape[0])])
     a = np.asarray(v, dtype=np.int64)
     if kind == "list":
         return [list(r) for r in v]
@@ -149,8 +176,13 @@ def policy_objects(ln, nn):
     return lp, npol, params
 
 
-def scenario(ln, nn, seed, assign):
+LABELSETS = {"int": {1: 1, 2: 2, 3: 3}, "str": {1: "b", 2: "a", 3: "c"}}
+
+
+def scenario(ln, nn, seed, assign, labels="int"):
     """assign: {axis: encoding}.  -> (outputs, list of 'call: object' that were modified)"""
+    if labels != "int":
+        return scenario_labels(ln, nn, seed, assign, LABELSETS[labels])
     cf = A.context_free(ln, nn)
     w = Watch()
     lp, npol, params = policy_objects(ln, nn)
@@ -173,7 +205,7 @@ def scenario(ln, nn, seed, assign):
     if cf:
         mab.fit(d, r)
     else:
-        x = w.add("fit contexts", enc_ctx(assign["fit_x"], FIT_X))
+        x = w.add("fit contexts", enc_ctx(assign["fit_x"], FIT_X, assign.get("_float", False)))
         mab.fit(d, r, x)
     check("fit")
     mab.add_arm(3)
@@ -185,14 +217,14 @@ def scenario(ln, nn, seed, assign):
     if cf:
         mab.partial_fit(d2, r2)
     else:
-        x2 = w.add("partial_fit contexts", enc_ctx(assign["pf_x"], PF_X))
+        x2 = w.add("partial_fit contexts", enc_ctx(assign["pf_x"], PF_X, assign.get("_float", False)))
         mab.partial_fit(d2, r2, x2)
     check("partial_fit")
     if cf:
         outs.append(ops.norm(mab.predict()))
         outs.append(ops.norm(mab.predict_expectations()))
     else:
-        q = w.add("query contexts", enc_ctx(assign["q_x"], Q))
+        q = w.add("query contexts", enc_ctx(assign["q_x"], Q, assign.get("_float", False)))
         outs.append(ops.norm(mab.predict(q)))
         check("predict")
         outs.append(ops.norm(mab.predict_expectations(q)))
@@ -205,9 +237,60 @@ def scenario(ln, nn, seed, assign):
     if cf:
         outs.append(ops.norm(mab.predict()))
     else:
-        q1 = w.add("single query row", enc_ctx(assign["q_x"], Q[1:2]))
+        q1 = w.add("single query row", enc_ctx(assign["q_x"], Q[1:2], assign.get("_float", False)))
         outs.append(ops.norm(mab.predict(q1)))
     check("final predict")
+    outs.append(ops.norm(list(mab.arms)))
+    return outs, modified
+
+
+def scenario_labels(ln, nn, seed, assign, mp):
+    """The same scenario with str arm labels (decision containers hold strings)."""
+    cf = A.context_free(ln, nn)
+    w = Watch()
+    lp, npol, params = policy_objects(ln, nn)
+    w.add("policy parameters", params)
+    arms = w.add("arms list", [mp[1], mp[2]])
+    mab = MAB(arms, lp, npol, seed=seed)
+    modified = []
+
+    def check(call):
+        for name in w.changed():
+            modified.append("%s modified %s" % (call, name))
+
+    def dec(kind, v):
+        v = [mp[a] for a in v]
+        if kind == "list":
+            return v
+        if kind in ("nd_int", "nd_float"):
+            return np.asarray(v)
+        if kind == "series":
+            return pd.Series(v)
+        return pd.Series(v, index=[(7 * i + 3) % 11 for i in range(len(v))])
+    outs = []
+    d = w.add("fit decisions", dec(assign["fit_d"], FIT_D))
+    r = w.add("fit rewards", enc_rew(assign["fit_r"], FIT_R))
+    if cf:
+        mab.fit(d, r)
+    else:
+        mab.fit(d, r, w.add("fit contexts", enc_ctx(assign["fit_x"], FIT_X)))
+    check("fit")
+    mab.add_arm(mp[3])
+    d2 = w.add("partial_fit decisions", dec(assign["pf_d"], PF_D))
+    r2 = w.add("partial_fit rewards", enc_rew(assign["pf_r"], PF_R))
+    if cf:
+        mab.partial_fit(d2, r2)
+    else:
+        mab.partial_fit(d2, r2, w.add("partial_fit contexts", enc_ctx(assign["pf_x"], PF_X)))
+    check("partial_fit")
+    if cf:
+        outs.append(ops.norm(mab.predict()))
+        outs.append(ops.norm(mab.predict_expectations()))
+    else:
+        q = w.add("query contexts", enc_ctx(assign["q_x"], Q))
+        outs.append(ops.norm(mab.predict(q)))
+        outs.append(ops.norm(mab.predict_expectations(q)))
+    check("predict")
     outs.append(ops.norm(list(mab.arms)))
     return outs, modified
 
@@ -219,13 +302,13 @@ def series_scenarios(ln, nn, seed):
     out = []
     lp, npol, _ = policy_objects(ln, nn)
     # single feature column
-    x1 = [[0], [1], [2], [3], [1], [2]]
+    x1 = [[0.1], [1.3], [2.2], [3.7], [1.4], [2.9]]
 
     def run1(as_series):
         m = MAB([1, 2], lp, npol, seed=seed)
         m.fit(list(FIT_D), list(FIT_R), pd.Series([v[0] for v in x1]) if as_series else [list(v) for v in x1])
-        m.partial_fit([2, 1], [1, 0], pd.Series([1, 3]) if as_series else [[1], [3]])
-        q = pd.Series([0, 2, 3]) if as_series else [[0], [2], [3]]
+        m.partial_fit([2, 1], [1, 0], pd.Series([1.2, 3.3]) if as_series else [[1.2], [3.3]])
+        q = pd.Series([0.1, 2.2, 3.1]) if as_series else [[0.1], [2.2], [3.1]]
         return [ops.norm(m.predict(q)), ops.norm(m.predict_expectations(q))]
     out.append(("single feature column", run1))
     # single row
@@ -258,18 +341,18 @@ def assignments(dev, cf):
                 yield asg
 
 
-def judge(ln, nn, seed, assign, base_out=None):
+def judge(ln, nn, seed, assign, base_out=None, labels="int"):
     tol = 1e-9 if ln in A.LINEAR_LPS else 0.0
     if base_out is None:
-        base_out, _ = scenario(ln, nn, seed, baseline_assign())
+        base_out, _ = scenario(ln, nn, seed, dict(baseline_assign(), _float=assign.get("_float", False)), labels)
     try:
-        outs, modified = scenario(ln, nn, seed, assign)
+        outs, modified = scenario(ln, nn, seed, assign, labels)
     except Exception as e:                                    # noqa: BLE001
         return ["scenario with encodings %r raised %s: %s" % (assign, type(e).__name__, str(e)[:150])]
     msgs = list(modified)
     if not ops.same(outs, base_out, rtol=tol, atol=tol):
         msgs.append("encodings %r give %r, all-lists baseline gives %r" % (
-            {k: v for k, v in assign.items() if v != baseline_assign()[k]}, outs, base_out))
+            {k: v for k, v in assign.items() if v != baseline_assign().get(k)}, outs, base_out))
     return msgs
 
 
@@ -292,6 +375,40 @@ def run_shard(shard):
         for m in msgs[:2]:
             acc.violation("%s/%s %s" % (ln, nn, ",".join("%s=%s" % kv for kv in sorted(dev.items())) or m.split(" ")[0]),
                           {"ln": ln, "nn": nn, "seed": seed, "assign": asg}, m)
+    # float-valued contexts (non-dyadic), incl. read-only buffers: one deviating context axis at a time
+    if not cf:
+        fb = dict(baseline_assign(), _float=True)
+        try:
+            base_f, mod_f = scenario(ln, nn, seed, fb)
+        except Exception as e:                                # noqa: BLE001
+            base_f, mod_f = None, ["float baseline raised %s" % type(e).__name__]
+        for m in mod_f[:2]:
+            acc.violation("%s/%s float baseline" % (ln, nn), {"ln": ln, "nn": nn, "seed": seed, "assign": fb}, m)
+        for axis in ("fit_x", "pf_x", "q_x"):
+            for e in FLOAT_CTX_ENC[1:]:
+                asg = dict(fb)
+                asg[axis] = e
+                msgs = judge(ln, nn, seed, asg, base_f) if base_f is not None else []
+                acc.traces += 1
+                ops.COUNTERS["transitions"] += 9
+                key = (ln, nn, "float", axis, e)
+                acc.state(key)
+                acc.case(key)
+                for m in msgs[:2]:
+                    acc.violation("%s/%s float %s=%s" % (ln, nn, axis, e), {"ln": ln, "nn": nn, "seed": seed, "assign": asg}, m)
+    # str arm labels: decision containers hold strings (one deviating axis at a time)
+    base_s, _ = scenario(ln, nn, seed, baseline_assign(), "str")
+    for asg in assignments(1, cf):
+        dev = {k: v for k, v in asg.items() if v != baseline_assign()[k]}
+        msgs = judge(ln, nn, seed, asg, base_s, "str")
+        acc.traces += 1
+        ops.COUNTERS["transitions"] += 5
+        key = (ln, nn, "str", str(sorted(dev.items())))
+        acc.state(key)
+        acc.case(key if dev else None)
+        for m in msgs[:2]:
+            acc.violation("%s/%s str-labels %s" % (ln, nn, ",".join("%s=%s" % kv for kv in sorted(dev.items()))),
+                          {"ln": ln, "nn": nn, "seed": seed, "assign": asg, "labels": "str"}, m)
     tol = 1e-9 if ln in A.LINEAR_LPS else 0.0
     for label, run in series_scenarios(ln, nn, seed):
         try:
@@ -320,4 +437,4 @@ def replay(w):
                     return ["raised %s" % type(e).__name__]
                 return [] if ops.same(a, b, rtol=tol, atol=tol) else ["Series %r != lists %r" % (a, b)]
         return []
-    return judge(w["ln"], w["nn"], w["seed"], w["assign"])
+    return judge(w["ln"], w["nn"], w["seed"], w["assign"], labels=w.get("labels", "int"))
